@@ -100,7 +100,7 @@ MVal generate(const std::string& profile, uint64_t seed, uint64_t idx) {
     plan.set("engine", MVal::str("iosim")); plan.set("check", MVal::str(profile));
     plan.set("seed", MVal::uinteger(seed)); plan.set("idx", MVal::uinteger(idx));
     std::string fmt = formats[idx % (sizeof formats / sizeof formats[0])];
-    if (profile == "c05" && idx % 16 == 15) fmt = "toon";      // C05 names TOON among the decoders (reader and decoder only: there is no TOON cursor)
+    if (profile == "c05" && idx % 8 == 7) fmt = "toon";      // C05 names TOON among the decoders (reader and decoder only: there is no TOON cursor)
     plan.set("format", MVal::str(fmt));
     const FormatApi& api = api_of(fmt);
     if (profile == "c10") {
